@@ -6,6 +6,17 @@ import Csvq.Model.Dml
 namespace Csvq.Dml
 open Csvq
 
+/-- the cell in record `i`, column `j` of a list of records -/
+def cellAt (rows : List Row) (i j : Nat) : Option Cell := (rows[i]?).bind fun r => r[j]?
+
+theorem length_filter_not_add_countP {α} (p : α → Bool) (l : List α) :
+    l.length = (l.filter fun a => !p a).length + l.countP p := by
+  induction l with
+  | nil => rfl
+  | cons a as ih =>
+    rw [List.filter_cons, List.countP_cons]
+    cases hp : p a <;> simp [ih] <;> omega
+
 /-! ## firstIdx, colIndex, fieldIndices -/
 
 theorem firstIdx_some {α} [DecidableEq α] (a : α) : ∀ (l : List α) (i : Nat), firstIdx a l = some i →
@@ -1025,6 +1036,30 @@ theorem rewriteRow_length {ρ : Type} (h : List String) (ctx : ρ) : ∀ (sets :
     · rw [this]; simp
     · rw [this]
 
+/-- one SET item applied to the record being rewritten (values come from `ctx`, the old record) -/
+def setStep {ρ : Type} (h : List String) (ctx : ρ) (s : SetItem ρ) (row : Row) : Row :=
+  match colIndex h s.field, s.expr ctx with
+  | .ok j, .ok v => row.set j v
+  | _, _ => row
+
+theorem rewriteRow_cons {ρ : Type} (h : List String) (ctx : ρ) (s : SetItem ρ) (ss : List (SetItem ρ)) (row : Row) :
+    rewriteRow h (s :: ss) ctx row = rewriteRow h ss ctx (setStep h ctx s row) := rfl
+
+theorem setStep_other {ρ : Type} (h : List String) (ctx : ρ) (s : SetItem ρ) (row : Row) (j : Nat)
+    (hne : colIndex h s.field ≠ .ok j) : (setStep h ctx s row)[j]? = row[j]? := by
+  unfold setStep
+  split
+  · rename_i j' v hj hv
+    rw [List.getElem?_set]
+    have : j' ≠ j := fun e => hne (by rw [hj, e])
+    simp [this]
+  · rfl
+
+theorem setStep_length {ρ : Type} (h : List String) (ctx : ρ) (s : SetItem ρ) (row : Row) :
+    (setStep h ctx s row).length = row.length := by
+  unfold setStep
+  split <;> simp
+
 /-- a cell that changed belongs to a column named in the SET list -/
 theorem rewriteRow_changed {ρ : Type} (h : List String) (ctx : ρ) (j : Nat) : ∀ (sets : List (SetItem ρ)) (row : Row),
     (rewriteRow h sets ctx row)[j]? ≠ row[j]? → ∃ s ∈ sets, colIndex h s.field = .ok j := by
@@ -1033,22 +1068,11 @@ theorem rewriteRow_changed {ρ : Type} (h : List String) (ctx : ρ) (j : Nat) : 
   | nil => intro row hne; exact absurd rfl hne
   | cons s ss ih =>
     intro row hne
-    unfold rewriteRow at hne
-    simp only [List.foldl_cons] at hne
-    have ih' := ih
-    unfold rewriteRow at ih'
-    split at hne
-    · rename_i j' v hj hv
-      by_cases hjj : j' = j
-      · subst hjj; exact ⟨s, List.mem_cons_self, hj⟩
-      · by_cases hch : (List.foldl (fun acc s =>
-            match colIndex h s.field, s.expr ctx with
-            | .ok j, .ok v => acc.set j v
-            | _, _ => acc) (row.set j' v) ss)[j]? = (row.set j' v)[j]?
-        · exfalso; apply hne; rw [hch, List.getElem?_set]; simp [hjj]
-        · obtain ⟨s', hs', hc'⟩ := ih' (row.set j' v) hch
-          exact ⟨s', List.mem_cons_of_mem _ hs', hc'⟩
-    · obtain ⟨s', hs', hc'⟩ := ih' row hne
+    rw [rewriteRow_cons] at hne
+    by_cases hc : colIndex h s.field = .ok j
+    · exact ⟨s, List.mem_cons_self, hc⟩
+    · rw [← setStep_other h ctx s row j hc] at hne
+      obtain ⟨s', hs', hc'⟩ := ih _ hne
       exact ⟨s', List.mem_cons_of_mem _ hs', hc'⟩
 
 theorem rewriteRow_other {ρ : Type} (h : List String) (ctx : ρ) (j : Nat) (sets : List (SetItem ρ)) (row : Row)
@@ -1070,21 +1094,17 @@ theorem rewriteRow_value {ρ : Type} (h : List String) (ctx : ρ) : ∀ (sets : 
   | cons s0 ss ih =>
     intro row s j v hp hs hj hv hl
     rw [List.pairwise_cons] at hp
+    rw [rewriteRow_cons]
     cases hs with
     | head =>
-      rw [rewriteRow_cons_ok h s ss ctx row j v hj hv]
-      rw [rewriteRow_other h ctx j ss (row.set j v) (by
+      rw [rewriteRow_other h ctx j ss _ (by
         intro s' hs' hc
         exact hp.1 s' hs' (by rw [hj, hc]))]
+      unfold setStep
+      simp only [hj, hv]
       rw [List.getElem?_set]; simp [hl]
     | tail _ hm =>
-      unfold rewriteRow
-      simp only [List.foldl_cons]
-      have ih' := ih
-      unfold rewriteRow at ih'
-      split
-      · exact ih' _ s j v hp.2 hm hj hv (by simpa using hl)
-      · exact ih' _ s j v hp.2 hm hj hv hl
+      exact ih _ s j v hp.2 hm hj hv (by rw [setStep_length]; exact hl)
 
 theorem firstIdx_nodup {α} [DecidableEq α] : ∀ (l : List α) (j : Nat) (c : α), l.Nodup → l[j]? = some c →
     firstIdx c l = some j := by
@@ -1118,8 +1138,345 @@ theorem colIndex_nodup (h : List String) (j : Nat) (c : String) (hn : h.Nodup) (
     have hlt2 : j + 1 + k < h.length := (List.getElem?_eq_some_iff.mp hk).1
     have e1 : h[j] = c := (List.getElem?_eq_some_iff.mp hj).2
     have e2 : h[j + 1 + k] = c := (List.getElem?_eq_some_iff.mp hk).2
-    have := (List.Nodup.getElem_inj_iff hn (hi := hlt1) (hj := hlt2)).mp (e1.trans e2.symm)
+    have := (List.getElem_inj (h₀ := hlt1) (h₁ := hlt2) hn).mp (e1.trans e2.symm)
     omega
   simp [this]
+
+/-! ## more on REPLACE and DROP -/
+
+/-- the given-record indices that some existing record matched first -/
+def matchedOf (keq : List Cell → List Cell → Bool) (kidx : List Nat) (records rows : List Row) : List Nat :=
+  rows.filterMap fun r => (firstMatch keq kidx r records).map Prod.fst
+
+theorem keyNotSet_false (fidx : List Nat) : ∀ (kidx : List Nat), keyNotSet fidx kidx = false → ∀ k ∈ kidx, k ∈ fidx := by
+  intro kidx
+  induction kidx with
+  | nil => intro _ k hk; cases hk
+  | cons k ks ih =>
+    intro h x hx
+    unfold keyNotSet at h
+    split at h
+    · rename_i hm
+      cases hx with
+      | head => exact hm
+      | tail _ hm' => exact ih h x hm'
+    · cases h
+
+/-- `removeIdx` keeps exactly the elements whose position is not in `d`, in order -/
+theorem removeIdx_eq_filter_zip {α} (d : List Nat) (l : List α) :
+    removeIdx d l 0 = ((l.zip (List.range l.length)).filter (fun q => !decide (q.2 ∈ d))).map Prod.fst := by
+  have hz := removeIdx_filter d (fun (q : α × Nat) => decide (q.2 ∈ d)) (l.zip (List.range l.length)) 0 (by
+    intro j hj
+    simp only [List.getElem_zip, List.getElem_range, Nat.zero_add, decide_eq_true_eq])
+  rw [← hz, removeIdx_zip]
+  rw [List.map_fst_zip]
+  rw [removeIdx_length_congr d l (List.range l.length) 0 (by simp)]
+  exact Nat.le_refl _
+
+theorem mem_removeIdx {α} (d : List Nat) (l : List α) (g : α) (hg : g ∈ removeIdx d l 0) :
+    ∃ j, j ∉ d ∧ l[j]? = some g := by
+  rw [removeIdx_eq_filter_zip, List.mem_map] at hg
+  obtain ⟨q, hq, rfl⟩ := hg
+  rw [List.mem_filter] at hq
+  obtain ⟨hz, hd⟩ := hq
+  rw [List.mem_iff_getElem] at hz
+  obtain ⟨j, hj, hqj⟩ := hz
+  simp only [List.getElem_zip, List.getElem_range] at hqj
+  refine ⟨j, ?_, ?_⟩
+  · have : q.2 = j := by rw [← hqj]
+    rw [this] at hd
+    simpa using hd
+  · have hjl : j < l.length := by
+      simp only [List.length_zip, List.length_range, Nat.min_self] at hj; exact hj
+    rw [List.getElem?_eq_getElem hjl, ← hqj]
+
+theorem IndicesOf.mem_iff {h : List String} : ∀ {fs : List String} {is : List Nat}, IndicesOf h fs is →
+    ∀ i, i ∈ is ↔ ∃ c ∈ fs, colIndex h c = .ok i := by
+  intro fs
+  induction fs with
+  | nil => intro is hi i; cases is with
+    | nil => simp
+    | cons _ _ => exact hi.elim
+  | cons f fs ih =>
+    intro is hi i
+    cases is with
+    | nil => exact hi.elim
+    | cons k is =>
+      simp only [List.mem_cons]
+      rw [ih hi.2 i]
+      constructor
+      · rintro (h1 | ⟨c, hc, hci⟩)
+        · subst h1; exact ⟨f, Or.inl rfl, hi.1⟩
+        · exact ⟨c, Or.inr hc, hci⟩
+      · rintro ⟨c, hc | hc, hci⟩
+        · subst hc
+          rw [hi.1] at hci
+          exact Or.inl (Except.ok.inj hci).symm
+        · exact Or.inr ⟨c, hc, hci⟩
+
+theorem IndicesOf.all_ok {h : List String} : ∀ {fs : List String} {is : List Nat}, IndicesOf h fs is →
+    ∀ c ∈ fs, ∃ i, colIndex h c = .ok i := by
+  intro fs
+  induction fs with
+  | nil => intro is _ c hc; cases hc
+  | cons f fs ih =>
+    intro is hi c hc
+    cases is with
+    | nil => exact hi.elim
+    | cons k is =>
+      cases hc with
+      | head => exact ⟨k, hi.1⟩
+      | tail _ hm => exact ih hi.2 c hm
+
+theorem indicesOf_unique {h : List String} : ∀ {fs : List String} {a b : List Nat},
+    IndicesOf h fs a → IndicesOf h fs b → a = b := by
+  intro fs
+  induction fs with
+  | nil => intro a b ha hb; cases a with
+    | nil => cases b with
+      | nil => rfl
+      | cons _ _ => exact hb.elim
+    | cons _ _ => exact ha.elim
+  | cons f fs ih =>
+    intro a b ha hb
+    cases a with
+    | nil => exact ha.elim
+    | cons x xs => cases b with
+      | nil => exact hb.elim
+      | cons y ys =>
+        have e : x = y := by
+          have := ha.1.symm.trans hb.1
+          exact Except.ok.inj this
+        rw [e, ih ha.2 hb.2]
+
+/-! ## rectangularity -/
+
+def AllRect (ts : Tables) : Prop := ∀ e ∈ ts, e.2.Rect
+
+theorem lookupT_mem : ∀ (ts : Tables) (n : String) (t : Table), lookupT ts n = some t → (n, t) ∈ ts := by
+  intro ts
+  induction ts with
+  | nil => intro n t h; simp [lookupT] at h
+  | cons e rest ih =>
+    intro n t h
+    unfold lookupT at h
+    split at h
+    · rename_i he
+      cases h
+      have : e = (e.1, e.2) := rfl
+      rw [this, he]; exact List.mem_cons_self
+    · exact List.mem_cons_of_mem _ (ih n t h)
+
+theorem getCopy_rect (ts : Tables) (n : String) (t : Table) (hr : AllRect ts) (h : getCopy ts n = .ok t) : t.Rect := by
+  unfold getCopy at h
+  cases hl : lookupT ts n with
+  | none => simp [hl] at h
+  | some t0 =>
+    simp only [hl] at h
+    cases h
+    exact hr _ (lookupT_mem ts n t hl)
+
+theorem setTable_rect : ∀ (ts : Tables) (n : String) (t : Table), AllRect ts → t.Rect → AllRect (setTable ts n t) := by
+  intro ts
+  induction ts with
+  | nil => intro n t h _; simpa [setTable] using h
+  | cons e rest ih =>
+    intro n t h ht
+    unfold setTable
+    have hrest : AllRect rest := fun x hx => h x (List.mem_cons_of_mem _ hx)
+    split
+    · intro x hx
+      cases hx with
+      | head => exact ht
+      | tail _ hm => exact hrest x hm
+    · intro x hx
+      cases hx with
+      | head => exact h e List.mem_cons_self
+      | tail _ hm => exact ih n t hrest ht x hm
+
+theorem publish_rect : ∀ (outs : List Out) (ts : Tables), AllRect ts → (∀ o ∈ outs, o.table.Rect) → AllRect (publish ts outs) := by
+  intro outs
+  induction outs with
+  | nil => intro ts h _; exact h
+  | cons o os ih =>
+    intro ts h ho
+    unfold publish
+    apply ih
+    · split
+      · intro x hx
+        rcases List.mem_append.mp hx with hx | hx
+        · exact h x hx
+        · simp at hx; subst hx; exact ho o List.mem_cons_self
+      · exact setTable_rect ts o.name o.table h (ho o List.mem_cons_self)
+    · exact fun x hx => ho x (List.mem_cons_of_mem _ hx)
+
+theorem updateViewRows_rect {ρ : Type} (h : List String) (sets : List (SetItem ρ)) (w : Nat) :
+    ∀ (view : List (Option Nat × ρ)) (rows : List Row), (∀ r ∈ rows, r.length = w) →
+    ∀ r ∈ updateViewRows h sets view rows, r.length = w := by
+  intro view
+  induction view with
+  | nil => intro rows hr; exact hr
+  | cons x rest ih =>
+    intro rows hr
+    unfold updateViewRows
+    simp only [List.foldl_cons]
+    have ih' := ih
+    unfold updateViewRows at ih'
+    cases hx : x.1 with
+    | none => exact ih' rows hr
+    | some k =>
+      apply ih'
+      intro r hm
+      rw [List.mem_iff_getElem?] at hm
+      obtain ⟨i, hi⟩ := hm
+      rw [List.getElem?_modify] at hi
+      cases hri : rows[i]? with
+      | none => simp [hri] at hi
+      | some r0 =>
+        have h0 := hr r0 (List.mem_of_getElem? hri)
+        by_cases hki : k = i
+        · simp [hri, hki] at hi
+          rw [← hi, rewriteRow_length]; exact h0
+        · simp [hri, hki] at hi
+          rw [← hi]; exact h0
+
+theorem updateCore_rect {ρ : Type} (view : List (Option Nat × ρ)) (sets : List (SetItem ρ)) (t t' : Table) (n : Nat)
+    (hr : t.Rect) (hk : updateCore view sets t = .ok (t', n)) : t'.Rect := by
+  obtain ⟨h1, h2, _, _⟩ := updateCore_ok view sets t t' n hk
+  intro r hm
+  rw [h2] at hm
+  rw [h1]
+  exact updateViewRows_rect t.header sets _ view t.rows hr r hm
+
+theorem deleteCore_rect (ids : List (Option Nat)) (t : Table) (hr : t.Rect) : (deleteCore ids t).1.Rect := by
+  intro r hm
+  exact hr r ((removeIdx_sublist _ t.rows 0).subset hm)
+
+/-! ## specification of one successful statement on the tables of the transaction -/
+
+def idxOf (h : List String) (fs : List String) : List Nat :=
+  match fieldIndices h fs with
+  | .ok is => is
+  | .error _ => []
+
+def posOf (h : List String) (pos : ColPos) : Nat :=
+  match insertPos h pos with
+  | .ok p => p
+  | .error _ => 0
+
+def colOf (h : List String) (c : String) : Nat :=
+  match colIndex h c with
+  | .ok i => i
+  | .error _ => 0
+
+def viewOf (ts : Tables) (froms : List String) (cond : List Row → Except Err Tern) : List JRow :=
+  match joinedView ts froms cond with
+  | .ok v => v.map Prod.snd
+  | .error _ => []
+
+theorem okRows_map_ok : ∀ (vals : List Row), okRows (vals.map (Except.ok (ε := Err))) = vals := by
+  intro vals
+  induction vals with
+  | nil => rfl
+  | cons v vs ih => simp [okRows, ih]
+
+theorem allOk_ok : ∀ (l : List (Except Err Row)) (rows : List Row), allOk l = .ok rows →
+    rows = okRows l ∧ ∀ r ∈ rows, .ok r ∈ l := by
+  intro l
+  induction l with
+  | nil => intro rows h; simp [allOk] at h; subst h; simp [okRows]
+  | cons x xs ih =>
+    intro rows h
+    cases x with
+    | error e => simp [allOk] at h
+    | ok r =>
+      unfold allOk at h
+      cases hr : allOk xs with
+      | error e => simp [hr] at h
+      | ok rs =>
+        simp only [hr] at h
+        cases h
+        obtain ⟨h1, h2⟩ := ih rs hr
+        constructor
+        · simp [okRows, h1]
+        · intro y hy
+          cases hy with
+          | head => exact List.mem_cons_self
+          | tail _ hm => exact List.mem_cons_of_mem _ (h2 y hm)
+
+/-- multi-table UPDATE, one target: every record of the filtered joined view rewrites the target record of its id -/
+def updStepSpec (ts : Tables) (froms : List String) (cond : List Row → Except Err Tern)
+    (sets : List (String × SetItem (List Row))) (acc : Tables) (tn : String) : Tables :=
+  match lookupT ts tn, firstIdx tn froms with
+  | some t, some p =>
+    let tsets := List.map Prod.snd (sets.filter fun s => s.1 = tn)
+    let tview := List.map (fun (jr : JRow) => ((jr[p]?).map Prod.fst, jctx jr)) (viewOf ts froms cond)
+    setTable acc tn { t with rows := updateViewRows t.header tsets tview t.rows }
+  | _, _ => acc
+
+/-- multi-table DELETE, one target: the records whose id occurs in the filtered joined view are removed -/
+def delStepSpec (ts : Tables) (froms : List String) (cond : List Row → Except Err Tern) (acc : Tables) (tn : String) : Tables :=
+  match lookupT ts tn, firstIdx tn froms with
+  | some t, some p =>
+    let ids := List.map (fun (jr : JRow) => (jr[p]?).map Prod.fst) (viewOf ts froms cond)
+    setTable acc tn { t with rows := removeIdx (collectIds ids []) t.rows 0 }
+  | _, _ => acc
+
+/-- the tables after a SUCCESSFUL statement, written with the per-statement specifications -/
+def specTables (ts : Tables) : Stmt → Tables
+  | .insert tbl fields src =>
+    match lookupT ts tbl with
+    | none => ts
+    | some t => setTable ts tbl { t with rows := t.rows ++ (okRows (src ts)).map (placeRow t.header (fields.getD t.header)) }
+  | .replace keq tbl fields keys src =>
+    match lookupT ts tbl with
+    | none => ts
+    | some t =>
+      let fs := fields.getD t.header
+      let kidx := idxOf t.header keys
+      let uidx := (idxOf t.header fs).filter fun i => i ∉ kidx
+      let records := (okRows (src ts)).map (placeRow t.header fs)
+      setTable ts tbl { t with rows := t.rows.map (rewriteFromFirst keq kidx uidx records)
+                                        ++ removeIdx (matchedOf keq kidx records t.rows) records 0 }
+  | .update tbl cond sets =>
+    match lookupT ts tbl with
+    | none => ts
+    | some t => setTable ts tbl { t with rows := updateSpecRows t.header cond sets t.rows }
+  | .delete tbl cond =>
+    match lookupT ts tbl with
+    | none => ts
+    | some t => setTable ts tbl { t with rows := deleteSpecRows cond t.rows }
+  | .updateMulti targets froms cond sets => targets.foldl (updStepSpec ts froms cond sets) ts
+  | .deleteMulti targets froms cond => targets.foldl (delStepSpec ts froms cond) ts
+  | .addCols tbl pos cols =>
+    match lookupT ts tbl with
+    | none => ts
+    | some t =>
+      let p := posOf t.header pos
+      setTable ts tbl { header := insertAt p (cols.map Prod.fst) t.header,
+                        rows := t.rows.map fun r => insertAt p (defVals (cols.map Prod.snd) r) r }
+  | .dropCols tbl cols =>
+    match lookupT ts tbl with
+    | none => ts
+    | some t =>
+      let d := dedupIdx (idxOf t.header cols) []
+      setTable ts tbl { header := removeIdx d t.header 0, rows := t.rows.map fun r => removeIdx d r 0 }
+  | .rename tbl old new =>
+    match lookupT ts tbl with
+    | none => ts
+    | some t => setTable ts tbl { t with header := t.header.set (colOf t.header old) new }
+  | .create tbl cols query =>
+    ts ++ [(tbl, { header := cols, rows := match query with | none => [] | some q => okRows (q.2 ts) })]
+
+/-- which statements of a history succeed (what csvq reports) -/
+def outcomes (s : State) : List Stmt → List Bool
+  | [] => []
+  | st :: rest => (!(stmtImpl s st).2.isError) :: outcomes (stmtImpl s st).1 rest
+
+/-- folding the per-statement specifications over a history, given which statements succeeded -/
+def runSpec (ts : Tables) : List Stmt → List Bool → Tables
+  | st :: rest, true :: os => runSpec (specTables ts st) rest os
+  | _ :: rest, false :: os => runSpec ts rest os
+  | _, _ => ts
 
 end Csvq.Dml
